@@ -108,6 +108,9 @@ let dispatch op =
               (match oconstruct g init with Ok o -> out_str (write_orientation names g o) | Err -> out "err"))
   | "nameok" -> let s = rd_str () in out_bool (name_ok s)
   | "pyint" -> let s = rd_str () in (match py_int s with None -> out "none" | Some z -> out_z z)
+  | "indep" -> let g = rd_graph () in out_nat (indep_number g); out_z (min_degree g); out_bool (is_complete_simple g)
+  | "multipart" -> let ps = rd_natlist () in let g = complete_multipartite ps in
+      out_z (multipartite_formula_as_implemented ps); out_int (List.length g); List.iter (fun r -> List.iter out_z r) g
   | "game" -> let g = rd_graph () in let d = rd_zlist () in let v = rd_nat () in out_res out_bool (play_game fuel g d v)
   | "strat" -> let g = rd_graph () in let d = rd_zlist () in
       out_res (fun (b, l) -> out_bool b; out_natlist l) (test_strategy fuel g d)
